@@ -54,6 +54,9 @@ BEHAVIOURS = {
     "syspath-src": "sys.path.insert(0, os.path.join(os.path.dirname(os.path.abspath(__file__)), 'src'))\nimport inner_mod\n",
     "urlretrieve": "import urllib.request\ntry:\n    urllib.request.urlretrieve('http://example.invalid/x', 'x')\nexcept IOError:\n    pass\n",
     "symlink": "os.symlink('a', 'b')\n",
+    "syspath-pop0": "sys.path.pop(0)\n",
+    "syspath-reset": "sys.path[:] = [p for p in sys.path if not p.startswith(os.path.dirname(os.path.abspath(__file__)))]\n",
+    "spawn-uncaught": "import subprocess\nsubprocess.check_output(['true'])\n",
     "thread": "import threading\n_t = threading.Thread(target=lambda: None)\n_t.start()\n_t.join()\n",
 }
 EXITS = ["sys.exit(0)", "sys.exit(3)", "os._exit(1)", "raise RuntimeError('boom')", "raise SystemExit(2)",
